@@ -149,7 +149,7 @@ def check(case, ctx):
         mk = case["mask"]
         arg = mk.tolist() if case["aslist"] else mk
         label = "a.compress_axis(%s, axis=%r)" % (mk.tolist(), axis) + base
-        res, exc = ctx.call(label, lambda: a.compress_axis(arg, axis=axis), operands=(a,), meta='carry')
+        res, exc = ctx.call(label, lambda: a.compress_axis(arg, axis=axis), operands=(a,) + common.array_args(arg), meta='carry')
         common.expect(ctx, ID, "compress", label, res, exc, exp=moved([i for i in range(n) if mk[i]]))
     elif what == 'dropna':
         mv = case["minvalid"]
@@ -200,9 +200,11 @@ def check(case, ctx):
             mk = case["mask"]
         else:
             value = [case["value"], case["mask"].copy()]
+            if case["inplace"] ^ (len(case["a"]["dims"]) % 2 == 0):
+                value = value[::-1]          # the mask first, the value after
             mk = case["mask"] | (v == case["value"])
         label = "a.setna(%s %s, inplace=%r)" % (form, codec.short(case.get("value", '<mask>'), 60), inplace) + base
-        res, exc = ctx.call(label, lambda: a.setna(value, inplace=inplace), operands=(a,), mutates=(a,) if inplace else (), meta=None if inplace else 'carry')
+        res, exc = ctx.call(label, lambda: a.setna(value, inplace=inplace), operands=(a,) + common.array_args(value), mutates=(a,) if inplace else (), meta=None if inplace else 'carry')
         e = v.astype(float).copy()
         e[mk] = np.nan
         tgt = a if inplace else res
